@@ -29,6 +29,11 @@ FIRST = {
     "C18-4": "missed; Remove with several patterns judged against successive removal",
     "C20-3": "missed; the same ad-hoc tag twice in one template with different arguments",
     "C20-4": "missed; carriage returns inside the program's output",
+    "C05-6": "missed; custom answers that are other spellings of a same-directory name (s/../x, ../r1/y) in name mode",
+    "C06-5": "generator extended after reading the author's report, before the first trial (siblings differing by Unicode normalisation or case)",
+    "C06-6": "missed by C06 (caught by C02): a retry performed in another input directory stays inside that directory",
+    "C02-5": "missed by C02 (caught by C16 once -v was added to its CLI stream): plans are stateless in the C02 harness",
+    "C02-6": "missed by C02 (caught by C07 once hard links were added): no hard links in the C02 trees",
 }
 rows = ["| seed | change (as its author described it) | detected by | first attempt |", "|---|---|---|---|"]
 for d in sorted(glob.glob(str(VERIF / "seeded" / "*"))):
